@@ -43,10 +43,22 @@ def standalone(b: envgen.Builder, child_shape, level):
     return toolrun.create_lib(desc)
 
 
-def run_shape(ctx, tr, shape, via, origin):
-    d = ctx.tmp("c05")
+def reversion(shape):
+    """The same description text over NEW file contents: every file-backed image / payload gets other bytes (and another size)
+    at the SAME path - version 2 of the files of a history in one process."""
+    sh = json.loads(json.dumps(shape))
+    sh["imgs"] = [[f, a, size + (1 if size not in (0, 65535) else 0), seed + 7919] for f, a, size, seed in sh.get("imgs", [])]
+    sh["pay"] = [[n, size + 1, form, seed + 7919] for n, size, form, seed in sh.get("pay", [])]
+    sh["deps"] = [[n, reversion(c), form, a] for n, c, form, a in sh.get("deps", [])]
+    return sh
+
+
+def run_shape(ctx, tr, shape, via, origin, d=None, prev=None):
+    d = d or ctx.tmp("c05")
     b = envgen.Builder(d)
     scn = {"origin": origin, "via": via, "shape": shape}
+    if prev is not None:
+        scn["prev"] = prev   # the description created just before, in the same process, over the same paths
     tr.begin(scn)
     try:
         desc = b.desc(shape, toolrun.create_lib)
@@ -100,6 +112,7 @@ def run_shape(ctx, tr, shape, via, origin):
         tr.ev("Embed", kind="pay", got=t.id(emb[0].val) if emb and emb[0].mt == 2 else -1, want=t.id(data))
         ctx.nontriv(("pay", form, size, shape.get("paynames", {}).get(name, "")))
     ctx.count("evaluations")
+    return d
 
 
 def ref_shapes(ctx):
@@ -127,7 +140,8 @@ def ref_shapes(ctx):
 def run(ctx: core.Check):
     ctx.cov["rule"] = ("reference forms {file, file_direct, raw, envelope(inline|path)} x five algorithms x file sizes {0, 1, 23, 24, "
                        "255, 256, 65535, 65536} x payloads by path with hex-looking names x dependency nesting to depth 3 with "
-                       "stale supplied digests in children (TLC-enumerated parent/child combinations + seeded). Distinct & "
+                       "stale supplied digests in children (TLC-enumerated parent/child combinations + seeded); every third description is "
+                       "created again in the same process after all its files got other contents at the same paths. Distinct & "
                        "non-trivial = distinct (kind, form, algorithm, size | child member modes).")
     ctx.note("Use A: Envelope_MC (ParentBindsChild)")
     ctx.mc("Envelope_MC", "Envelope_MC.cfg", required_actions=("FromObj", "Update", "Write"))
@@ -147,7 +161,13 @@ def run(ctx: core.Check):
     toolrun.report(ctx, tr, label="refs-tlc")
     tr = toolrun.Trace()
     for k, sh in enumerate(ref_shapes(ctx)):
-        run_shape(ctx, tr, sh, "lib" if k % 12 else ("json" if k % 24 else "yaml"), "forms")
+        via = "lib" if k % 12 else ("json" if k % 24 else "yaml")
+        d = run_shape(ctx, tr, sh, via, "forms")
+        if d is not None and k % 3 == 1:
+            # history: the same paths now hold other bytes; the same process creates again ("those exact files" = the files as
+            # they are at the time of THIS create)
+            run_shape(ctx, tr, reversion(sh), "lib", "forms/rewrite", d=d, prev=sh)
+            ctx.count("recreated_after_files_changed")
         if k == 0:
             ctx.sample({"shape": sh, "events": [e for e in tr.of(tr.tid) if e["ev"] != "Created"]})
         if len(tr.events) > 6000:
@@ -165,7 +185,10 @@ def run(ctx: core.Check):
 def replay(ctx, rec):
     scn = rec["replay"]["scenario"]
     tr = toolrun.Trace()
-    run_shape(ctx, tr, scn["shape"], scn.get("via", "lib"), "replay")
+    d = None
+    if scn.get("prev"):
+        d = run_shape(ctx, toolrun.Trace(), scn["prev"], "lib", "replay-prev")
+    run_shape(ctx, tr, scn["shape"], scn.get("via", "lib"), "replay", d=d)
     ctx.nontriv("replay")
     ctx.nontriv("replay2")
     ctx.sample({"replayed": scn})
